@@ -9,7 +9,7 @@ from . import common as C
 PID = "C20"
 ODIR = os.path.join(C.VERIF, "oracle", "c20")
 KINDS = {0: "random", 1: "clusters (merge-heavy)", 2: "cascade template", 3: "growth in four directions", 4: "stacked levels",
-         5: "non-lattice float32 inputs", 6: "big planes", 7: "module, several participants joining/leaving"}
+         5: "non-lattice float32 inputs", 6: "big planes", 7: "module, several participants joining/leaving (and switching sessions)", 8: "planes of every scale (half-extents down to the smallest float32)"}
 PV = {1: "a stored plane is not registered in a cell its footprint overlaps", 2: "a stored footprint is outside the grid bounds",
       3: "plane count differs from the number of distinct stored planes", 4: "covering region query does not return every stored plane exactly once",
       5: "vertical ray through the centre of a stored plane hits nothing", 6: "stored planes lost while the session lives (join / departure)",
@@ -380,7 +380,7 @@ def run(tier, replay_path=None):
 
     # 3. the tie is broken: search harder for an input on which the property itself fails on the implementation
     if tie_broken and not viol_reported and h_ok:
-        jobs = [("search-%d" % s, ["gen", "-seed", str(C.seed() * 104729 + 1000 + s), "-n", "250", "-kinds", "1,2,3,6,7,0,4,1"]) for s in range(12)]
+        jobs = [("search-%d" % s, ["gen", "-seed", str(C.seed() * 104729 + 1000 + s), "-n", "250", "-kinds", "1,2,3,6,7,0,4,8"]) for s in range(12)]
         res = run_shards(c20, ora, wd, jobs, 0)
         err = absorb(res)
         if err:
